@@ -169,6 +169,9 @@ type Store struct {
 	ResponseKeyName string
 	// KeysPerIssuer: the response-signing key depends on the issuer in the context of the call (see ResponseKeyFor)
 	KeysPerIssuer bool
+	// tenants: records that exist under one issuer host only (see Spec.Tenants)
+	tenantSPs   map[string]map[string]*serviceprovider.ServiceProvider
+	tenantUsers map[string]map[string]UserSpec
 }
 
 // ResponseKeyFor is the key a storage with one signing key per issuer (tenant) hands out for the issuer found in the context of
@@ -454,6 +457,10 @@ func (s *Store) GetEntityByID(ctx context.Context, entityID string) (*servicepro
 		return nil, injected(kind)
 	}
 	sp, ok := s.sps[entityID]
+	if t, tenant := s.tenantSPs[tenantOf(ctx)]; tenant {
+		// a request of that tenant: only the tenant's own registrations exist
+		sp, ok = t[entityID]
+	}
 	if !ok && s.Lenient {
 		for id, cand := range s.sps {
 			if lenientKey(id) == lenientKey(entityID) {
@@ -678,12 +685,25 @@ func (s *Store) SetUserinfoWithLoginName(ctx context.Context, set models.Attribu
 		return injected(kind)
 	}
 	u, ok := s.liveByLogin[loginName]
+	if t, tenant := s.tenantUsers[tenantOf(ctx)]; tenant {
+		u, ok = t[loginName]
+	}
 	if !ok {
 		c.Err = "not found"
 		return fmt.Errorf("user not found")
 	}
 	applyUser(u, set)
 	return nil
+}
+
+// tenantOf is the host of the issuer in the context of a storage call.
+func tenantOf(ctx context.Context) string {
+	iss := provider.IssuerFromContext(ctx)
+	if _, rest, ok := strings.Cut(iss, "://"); ok {
+		host, _, _ := strings.Cut(rest, "/")
+		return host
+	}
+	return iss
 }
 
 var _ provider.Storage = (*Store)(nil)
@@ -840,6 +860,22 @@ func Build(spec Spec) (*World, error) {
 	for _, r := range spec.Requests {
 		st.requests[r.ID] = &AuthRequest{S: r, Seeded: true}
 		st.order = append(st.order, r.ID)
+	}
+	for host, t := range spec.Tenants {
+		if st.tenantSPs == nil {
+			st.tenantSPs, st.tenantUsers = map[string]map[string]*serviceprovider.ServiceProvider{}, map[string]map[string]UserSpec{}
+		}
+		st.tenantSPs[host], st.tenantUsers[host] = map[string]*serviceprovider.ServiceProvider{}, map[string]UserSpec{}
+		for _, sp := range t.SPs {
+			inst, err := serviceprovider.NewServiceProvider(sp.AppID, &serviceprovider.Config{Metadata: sp.MetadataXML()}, sp.LoginURL)
+			if err != nil {
+				return nil, fmt.Errorf("tenant %s: %w", host, err)
+			}
+			st.tenantSPs[host][sp.EntityID] = inst
+		}
+		for _, u := range t.Users {
+			st.tenantUsers[host][u.LoginName] = u
+		}
 	}
 	st.faults = append([]Fault(nil), spec.Faults...)
 	st.Lenient = spec.LenientLookup
